@@ -43,6 +43,8 @@ CONSUMERS = [
     ".ascii §", ".asciz §", ".rad50 §", ".include §", "insert_file §", "make_bin §", "make_wav §, §", "make_raw §", ".extern §", ".even §", ".end §",
     ".error §", ".list §", ".title §", ".ident §", ".page §", ".once §",
     "§", "§, §", "lbl: §", "§:", "§ = 5", ".repeat 2 { § }", ".word 1, §, 2",
+    # a block whose count is only known later is assembled later, outside the file's own block
+    ".repeat q9 { § }\nq9 = 2", ".repeat q9 { .repeat q8 { § } }\nq9 = 1\nq8 = 2", ".repeat q9 { nop\n§\nnop }\n.word q9\nq9 = 2",
 ]
 SHAPES = [
     # literals
@@ -64,6 +66,7 @@ SHAPES = [
     ",1", ",", "1+-2", "1--2", "x+.", ".+x", "x*x", "x/x", "x-x", "1+2*3", "1 $ 2", "x $ y",
     # code blocks, empties, junk
     "\u0663", "\u0668", "\u00b2", "^D\u0663", "\u0663.", "1\u0663", "0x\u0663", "\u0663$", "\u0661\u0662", "\uff13", "\u2167", "^R\u212a", "^R\u0130", "\u017fp", "r\u0661",
+    ".once", ".end\nnop", ".include \"inc2.mac\"", ".include \"once3.mac\"", "lbl9: nop", "1: nop", ". = .+2", ".link 3000", "make_bin", ".extern all", "q7 = .",
     "{ nop }", "{", "}", "{ }", "{ { nop } }", "", " ", ";", "; comment", ":", "::", "=", "==", "= 1", "$", "?", "\\", "`", "\x00", "\t", " ", "nop", "mov", ".word", ".end",
 ]
 BIG_SHAPES = {"40000000000", "1 << 20000.", "1 << 70.", "1 _ 100000.", "200000", "1 >> -20000.", "1 >> 1 << 70."}
@@ -76,7 +79,7 @@ USES = [".word a", ".blkb a", ".repeat a { nop }", ".align a", ".link a", ". = a
 SIZE_STMTS = [".blkb n", ".blkw n", ".repeat n { nop }", ".align n", ". = .+n", ".ascii <n>", ".even", "insert_file \"f5.bin\"", ".include \"inc2.mac\""]
 DOT_READERS = [".word .", "mov #., r0", "br .", "q = .\n.word q", ".blkb .&3", ". = .+2", ".even", ".align 4", ".link ."]
 N_DEFS = ["n = 2", "n = e - s", "n = t - s"]
-TREE = {"f5.bin": b"\x01\x02\x03\x04\x05", "inc2.mac": ".byte 7\n.byte 10\n.byte 11\n"}
+TREE = {"f5.bin": b"\x01\x02\x03\x04\x05", "inc2.mac": ".byte 7\n.byte 10\n.byte 11\n", "once3.mac": ".once\n.byte 3\n"}
 
 
 # (h) letters that Python's case-insensitive matching and str.upper()/lower() treat as variants of ASCII letters
@@ -189,6 +192,7 @@ def cases(tier):
         yield {"k": "long", "start": i}
     yield {"k": "faults"}
     yield {"k": "cli"}
+    yield {"k": "cli-mute"}
     for ch in range(len(FOLD_CHARS)):
         yield {"k": "fold", "ch": ch}
     for b in range(len(inc_bodies(tier))):
@@ -405,9 +409,50 @@ def check(case, r, tier):
         for argv, tree in runs:
             cli_judge(r, argv, tree)
         return
+    if k == "cli-mute":
+        # a failing run says why whatever -W options are given: every catalogue error x the -Wno- options that could name it
+        from .c07 import error_indications
+        import shutil
+        for e in faults.E:
+            if e["sev"] != "error":
+                continue
+            body = "start:\tmov #start, r0\n" + "".join("\t" + l + "\n" for l in e["text"].split("\n")) + "\thalt\n"
+            tree = dict(e["tree"])
+            tree["m.mac"] = body
+            probe = driver.assemble([("m.mac", body)], tree=e["tree"] or None)
+            kinds = sorted(set(probe.error_kinds())) if probe.status == "fail" else []
+            wsels = [["-Wno-all"], ["-Wno-default"], ["-Wno-all", "-Wno-default"]] + [["-Wno-" + kd] for kd in kinds] + [["-W" + kd] for kd in kinds[:1]]
+            for wsel in wsels:
+                for fmt in ("graphical", "bare"):
+                    argv = ["m.mac", "-o", "m.bin", "--report-format", fmt] + wsel
+                    co = driver.cli(argv, tree, keep=True)
+                    try:
+                        r.states += 1
+                        r.trans += 1
+                        said = error_indications(co, fmt) > 0
+                        good = co.exit == 1 and said and not co.internal_error
+                        r.ran("cli-fail-said" if good else "cli-bad", key=("cli-mute", e["id"], tuple(wsel), fmt), nontrivial=True)
+                        if not good and not co.internal_error:
+                            sig = "cli:failure-without-diagnostic" if co.exit != 0 else "cli:error-but-success"
+                            r.violation("%s:%s" % (sig, "+".join(kinds) or e["id"]), "fault %s with %s: exit %r, %s" % (e["id"], wsel, co.exit, "an Error was shown" if said else "no Error diagnostic was shown"),
+                                        {"k": "cli-run", "argv": argv, "tree": {k2: (v if isinstance(v, str) else v.hex()) for k2, v in tree.items()}, "must_say": True},
+                                        "exit 1 with an Error diagnostic", (co.stderr + co.stdout.decode("utf-8", "replace"))[-300:])
+                        elif co.internal_error:
+                            cli_judge(r, argv, tree)
+                    finally:
+                        shutil.rmtree(co.root, ignore_errors=True)
+        return
     if k == "cli-run":
         tree = {k2: (v if not re.fullmatch(r"(?:[0-9a-f]{2})+", v) or k2.endswith(".mac") and "\n" in v else bytes.fromhex(v)) for k2, v in case["tree"].items()}
         cli_judge(r, case["argv"], tree)
+        if case.get("must_say"):
+            from .c07 import error_indications
+            import shutil
+            co = driver.cli(case["argv"], tree, keep=True)
+            shutil.rmtree(co.root, ignore_errors=True)
+            fmt = case["argv"][case["argv"].index("--report-format") + 1]
+            if co.exit != 1 or error_indications(co, fmt) == 0:
+                r.violation("cli:failure-without-diagnostic:replay", "exit %r" % co.exit, case, None, co.stderr[-300:])
         return
     if k == "fold":
         ch, asc = FOLD_CHARS[case["ch"]]
